@@ -19,6 +19,19 @@ SameFeats(a, b, full) ==       \* as bags: the order of the feature table is rep
   LET same(f, g) == PartBag(f) = PartBag(g) /\ (full => f.lab = g.lab) IN
   /\ Len(a) = Len(b)
   /\ \A j \in 1..Len(a) : Cardinality({i \in 1..Len(a) : same(a[i], a[j])}) = Cardinality({i \in 1..Len(b) : same(b[i], a[j])})
+\* the parts of a location, in the order the location lists them, keep that order under rotation
+\* (a join is read in its listed order); whole-turn parts have no phase
+SameOPart(n, x, y) == x.st = y.st /\ Len(x.idx) = Len(y.idx)
+                      /\ (IF Len(x.idx) = n THEN SeqToSet(x.idx) = SeqToSet(y.idx) ELSE x.idx = y.idx)
+OrderKept(pre, post, k) ==
+  LET n == Len(pre.seq) IN
+  /\ Len(pre.feats) = Len(post.feats)
+  /\ \A j \in 1..Len(pre.feats) :
+        /\ Len(pre.feats[j].oparts) = Len(post.feats[j].oparts)
+        /\ \A i \in 1..Len(pre.feats[j].oparts) :
+              LET a == pre.feats[j].oparts[i]
+                  r == [st |-> a.st, idx |-> [q \in 1..Len(a.idx) |-> (a.idx[q] + k) % n]]
+              IN SameOPart(n, r, post.feats[j].oparts[i])
 Image(o, nt) == RotRec(IF nt[1] = 1 THEN RcRec(o) ELSE o, nt[2])
 
 RotFails(e, o, nt2) ==
@@ -29,6 +42,7 @@ RotFails(e, o, nt2) ==
       img == Image(o, nt2)
   IN Chk("C13:SequenceRotated", e.post.seq = x.seq)
      \cup Chk("C13:FeaturesFollow", SameFeats(e.post.feats, x.feats, TRUE))
+     \cup Chk("C13:PartOrderKept", n = 0 \/ OrderKept(e.pre, e.post, k))
      \cup Chk("C13:TracksFollow", e.post.track = x.track)
      \cup Chk("C13:MetaCarried", e.post.meta = e.pre.meta /\ e.post.circular)
      \cup Chk("C13:GroupAction", e.post.seq = img.seq /\ SameFeats(e.post.feats, img.feats, FALSE))
@@ -48,6 +62,17 @@ SliceFails(e) ==
   IF e.exc # "" THEN {"C15:SliceRaises"} ELSE
   Chk("C15:SliceIsLinearString", e.res.seq = SliceSeq(Abs(e.pre), e.a, e.b))
   \cup Chk("C15:SliceNotCircular", ~e.res.circular /\ e.res.topo # "circular")
+\* C14: rc(r >> k) and rc(r) << k are the same record, part order of joins included
+CommuteFails(e) ==
+  IF e.exc # "" THEN {"C14:ReverseComplementRaises"} ELSE
+  LET n == Len(e.a.seq) IN
+  Chk("C14:CommutesWithRotation",
+      /\ e.a.seq = e.b.seq /\ e.a.circular /\ e.b.circular
+      /\ SameFeats(e.a.feats, e.b.feats, FALSE)
+      /\ Len(e.a.feats) = Len(e.b.feats)
+      /\ \A j \in 1..Len(e.a.feats) : \E j2 \in 1..Len(e.b.feats) :
+            /\ e.a.feats[j].lab = e.b.feats[j2].lab /\ Len(e.a.feats[j].oparts) = Len(e.b.feats[j2].oparts)
+            /\ \A i \in 1..Len(e.a.feats[j].oparts) : SameOPart(n, e.a.feats[j].oparts[i], e.b.feats[j2].oparts[i]))
 AddFails(e)  == Chk("C15:AddRefusedWithTypeError", e.exc = "TypeError")
 WrapFails(e) == Chk("C15:LinearCannotBeWrapped", e.exc # "")
 CopyFails(e) == Chk("C15:WrapCopies", Len(e.aliased) = 0)
@@ -67,6 +92,7 @@ Next ==
                  [] e.ev = "Contains" -> ContainsFails(e)
                  [] e.ev = "Slice" -> SliceFails(e)
                  [] e.ev = "Add" -> AddFails(e)
+                 [] e.ev = "Commute" -> CommuteFails(e)
                  [] e.ev = "WrapLinear" -> WrapFails(e)
                  [] e.ev = "WrapCopy" -> CopyFails(e)
                  [] OTHER -> {"X:UnknownEvent"}
